@@ -2,6 +2,319 @@
 
 package main
 
-import "github.com/theparanoids/ysshra/internal/zzverif/ev"
+import (
+	"crypto/x509"
+	"encoding/json"
+	"fmt"
+	"reflect"
+	"strconv"
+	"strings"
+	"unicode"
 
-func checkC15(c *ev.Ctx) { c.Cap("not implemented") }
+	"github.com/theparanoids/ysshra/internal/zzverif/ev"
+	"github.com/theparanoids/ysshra/message"
+)
+
+type c15Case struct {
+	Kind  string              // "attrs" | "text"
+	Attrs *message.Attributes `json:",omitempty"`
+	Text  string              `json:",omitempty"`
+	Note  string              `json:",omitempty"`
+}
+
+func c15Clean(s string) bool {
+	for _, r := range s {
+		if unicode.IsSpace(r) || r == '@' {
+			return false
+		}
+	}
+	return true
+}
+
+// c15NormExts applies the documented JSON normalisation (number typing, empty->nil) to an extension map.
+func c15NormExts(m map[string]interface{}) map[string]interface{} {
+	if len(m) == 0 {
+		return nil
+	}
+	b, _ := json.Marshal(m)
+	var out map[string]interface{}
+	json.Unmarshal(b, &out)
+	return out
+}
+
+func c15Attrs(c *ev.Ctx, a message.Attributes) {
+	c.Eval()
+	cas := c15Case{Kind: "attrs", Attrs: &a}
+	var text string
+	var err, derr error
+	var back *message.Attributes
+	if p := ev.Guard(func() {
+		aa := a
+		text, err = (&aa).Marshal()
+		if err == nil {
+			back, derr = message.Unmarshal(text)
+		}
+	}); p != "" {
+		c.Violation("C15:panic:"+ev.PanicSite(p), p, cas)
+		return
+	}
+	wantErr := a.SSHClientVersion == "" || a.Username == "" || a.Hostname == ""
+	if (err != nil) != wantErr {
+		c.Violation(fmt.Sprintf("C15:marshal:refused=%v:want=%v", err != nil, wantErr), fmt.Sprintf("Marshal err=%v for %s", err, ev.JSON(a)), cas)
+		return
+	}
+	if err != nil {
+		c.Outcome("encoder-refused")
+		return
+	}
+	if a.IfVer >= 7 {
+		c.Outcome("json")
+		c.Nontrivial(text)
+		if derr != nil {
+			c.Violation("C15:json:decode-fails", fmt.Sprintf("Unmarshal(Marshal(a)) failed: %v; text=%s", derr, text), cas)
+			return
+		}
+		want := a
+		if want.TouchlessSudo == nil {
+			want.TouchlessSudo = &message.TouchlessSudo{}
+		}
+		want.Exts = c15NormExts(a.Exts)
+		if !reflect.DeepEqual(*back, want) {
+			c.Violation("C15:json:roundtrip", fmt.Sprintf("got %s want %s (text %s)", ev.JSON(back), ev.JSON(want), text), cas)
+		}
+		return
+	}
+	// legacy format
+	clean := c15Clean(a.SSHClientVersion) && c15Clean(a.Username) && c15Clean(a.Hostname) && (a.TouchlessSudo == nil || c15Clean(a.TouchlessSudo.Hosts))
+	if !clean {
+		c.Outcome("legacy-totality-only")
+		return // statement promises nothing beyond not crashing
+	}
+	c.Outcome("legacy")
+	c.Nontrivial(text)
+	if derr != nil {
+		c.Violation("C15:legacy:decode-fails", fmt.Sprintf("Unmarshal(Marshal(a)) failed: %v; text=%q", derr, text), cas)
+		return
+	}
+	ts := message.TouchlessSudo{}
+	if a.TouchlessSudo != nil {
+		ts = *a.TouchlessSudo
+	}
+	var bts message.TouchlessSudo
+	if back.TouchlessSudo != nil {
+		bts = *back.TouchlessSudo
+	}
+	if back.SSHClientVersion != a.SSHClientVersion || back.Username != a.Username || back.Hostname != a.Hostname ||
+		back.HardKey != a.HardKey || back.Touch2SSH != a.Touch2SSH || bts != ts {
+		c.Violation("C15:legacy:roundtrip", fmt.Sprintf("got %s want fields of %s (text %q)", ev.JSON(back), ev.JSON(a), text), cas)
+	}
+	if back.IfVer != 6 {
+		c.Violation("C15:legacy:ifver", fmt.Sprintf("interface version %d, want 6", back.IfVer), cas)
+	}
+	// raw tokens mirrored into the extension map
+	for _, tok := range strings.Split(text, " ") {
+		k, v := tok, ""
+		if i := strings.Index(tok, "="); i >= 0 {
+			k, v = tok[:i], tok[i+1:]
+		}
+		if got, ok := back.Exts[k]; !ok || got != v {
+			c.Violation("C15:legacy:exts-mirror", fmt.Sprintf("token %q not mirrored in Exts %v", tok, back.Exts), cas)
+			break
+		}
+	}
+}
+
+// c15Text checks an arbitrary input text of the decoder.
+func c15Text(c *ev.Ctx, text, note string) {
+	c.Eval()
+	cas := c15Case{Kind: "text", Text: text, Note: note}
+	var got *message.Attributes
+	var err error
+	if p := ev.Guard(func() { got, err = message.Unmarshal(text) }); p != "" {
+		c.Violation("C15:panic:"+ev.PanicSite(p), p, cas)
+		return
+	}
+	// independent decode: does the text decode as a (non-null) JSON attribute object?
+	var probe map[string]json.RawMessage
+	var ind message.Attributes
+	isObj := json.Unmarshal([]byte(text), &probe) == nil && probe != nil && json.Unmarshal([]byte(text), &ind) == nil
+	if isObj {
+		c.Nontrivial("jsonobj:" + text)
+		missing := ind.SSHClientVersion == "" || ind.Username == "" || ind.Hostname == ""
+		if missing {
+			c.Outcome("jsonobj-missing-field")
+			if err == nil {
+				c.Violation("C15:jsonobj:accepted-missing-required", fmt.Sprintf("JSON attribute object lacking a required field accepted as %s", ev.JSON(got)), cas)
+			}
+			return
+		}
+		c.Outcome("jsonobj-ok")
+		if err != nil {
+			c.Violation("C15:jsonobj:refused", fmt.Sprintf("complete JSON attribute object refused: %v", err), cas)
+			return
+		}
+		if ind.TouchlessSudo == nil {
+			ind.TouchlessSudo = &message.TouchlessSudo{}
+		}
+		if !reflect.DeepEqual(*got, ind) {
+			c.Violation("C15:jsonobj:reinterpreted", fmt.Sprintf("got %s, JSON decode gives %s", ev.JSON(got), ev.JSON(ind)), cas)
+		}
+		return
+	}
+	if err != nil {
+		c.Outcome("text-refused")
+		return
+	}
+	c.Outcome("legacy-accepted")
+	c.Nontrivial("legacy:" + text)
+	// legacy success: reference parse (split on ' ', trim, skip empty, first '=', last duplicate wins)
+	ref := map[string]string{}
+	for _, tok := range strings.Split(text, " ") {
+		tok = strings.TrimSpace(tok)
+		if tok == "" {
+			continue
+		}
+		k, v := tok, ""
+		if i := strings.Index(tok, "="); i >= 0 {
+			k, v = tok[:i], tok[i+1:]
+		}
+		ref[k] = v
+	}
+	req, ok := ref["req"]
+	parts := strings.Split(req, "@")
+	if !ok || len(parts) != 2 {
+		c.Violation("C15:legacy:accepted-without-requester", fmt.Sprintf("legacy text without a well-formed req accepted: %s", ev.JSON(got)), cas)
+		return
+	}
+	hk, _ := strconv.ParseBool(ref["HardKey"])
+	t2, _ := strconv.ParseBool(ref["Touch2SSH"])
+	if got.Username != parts[0] || got.Hostname != parts[1] || got.SSHClientVersion != ref["SSHClientVersion"] || got.HardKey != hk || got.Touch2SSH != t2 {
+		c.Violation("C15:legacy:fields", fmt.Sprintf("got %s, reference tokens %v", ev.JSON(got), ref), cas)
+	}
+	if len(got.Exts) != len(ref) {
+		c.Violation("C15:legacy:exts-mirror", fmt.Sprintf("Exts %v, reference tokens %v", got.Exts, ref), cas)
+		return
+	}
+	for k, v := range ref {
+		if gv, ok := got.Exts[k]; !ok || gv != v {
+			c.Violation("C15:legacy:exts-mirror", fmt.Sprintf("Exts %v, reference tokens %v", got.Exts, ref), cas)
+			return
+		}
+	}
+}
+
+func checkC15(c *ev.Ctx) {
+	c.Rule("attribute sets: IfVer{7,8,0,6} x 3 booleans x TouchlessSudo{nil,zero,hosts,time,negative time,all} x CAPubKeyAlgo{0,1,3,99} x SignatureAlgo{0,4,16} x strings (quick: 7 joint rotations + one-field-at-a-time; thorough: full 7^3 cross product; + whitespace/@ values for totality) x 9 extension maps, round-tripped through the real Marshal/Unmarshal; texts: all legacy token sequences up to length 3 (thorough 4) over an 18-token alphabet and a catalogue of JSON texts, compared with an independent encoding/json decode and a reference token parser. non-trivial = round trip executed or text accepted/JSON object; distinct by encoded text")
+	c.Assume("valid UTF-8 only", "legacy fields are promised only for values free of Unicode whitespace and '@'")
+	if c.ReplayCase != nil {
+		var k c15Case
+		json.Unmarshal(c.ReplayCase, &k)
+		if k.Kind == "attrs" && k.Attrs != nil {
+			c15Attrs(c, *k.Attrs)
+		} else {
+			c15Text(c, k.Text, k.Note)
+		}
+		return
+	}
+	strs := []string{"a", "8.1", "ü", "a=b", "x\"y", "{", strings.Repeat("w", 300)}
+	var triples [][3]string
+	if c.Thorough() {
+		all := append(append([]string{}, strs...), "")
+		for _, x := range all {
+			for _, y := range all {
+				for _, z := range all {
+					triples = append(triples, [3]string{x, y, z})
+				}
+			}
+		}
+	} else {
+		for i := range strs {
+			triples = append(triples, [3]string{strs[i], strs[(i+1)%7], strs[(i+2)%7]})
+			triples = append(triples, [3]string{strs[i], "8.1", "h"}, [3]string{"u", strs[i], "h"}, [3]string{"u", "8.1", strs[i]})
+		}
+		triples = append(triples, [3]string{"", "8.1", "h"}, [3]string{"u", "", "h"}, [3]string{"u", "8.1", ""}, [3]string{"", "", ""})
+	}
+	for _, w := range []string{"a b", "a\tb", "a b", "a@b", " a", "a ", "\n"} {
+		triples = append(triples, [3]string{w, "8.1", "h"}, [3]string{"u", w, "h"}, [3]string{"u", "8.1", w})
+	}
+	tsudos := []*message.TouchlessSudo{nil, {}, {Hosts: "h1,h2"}, {Time: 30}, {Time: -5}, {IsFirefighter: true, Hosts: "h=1", Time: 1 << 40}, {Hosts: "a b"}}
+	exts := []map[string]interface{}{nil, {}, {"k": "v"}, {"n": map[string]interface{}{"m": map[string]interface{}{"x": 1}}}, {"arr": []interface{}{1, "a", nil}},
+		{"num": 100}, {"b": true}, {"nul": nil}, {"req": "u@h", "IFVer": "6"}}
+	bools := []bool{false, true}
+	n := 0
+	var cases []message.Attributes
+	for _, ifv := range []int{7, 8, 0, 6} {
+		for _, hk := range bools {
+			for _, t2 := range bools {
+				for _, ts := range tsudos {
+					for _, ca := range []int{0, 1, 3, 99} {
+						for _, sa := range []int{0, 4, 16} {
+							for _, tr := range triples {
+								for _, ex := range exts {
+									if ifv < 7 && ex != nil && len(ex) > 0 && ex["k"] == nil {
+										continue // extension maps are not carried by the legacy format; keep nil/{}/one map
+									}
+									var tsc *message.TouchlessSudo
+									if ts != nil {
+										cp := *ts
+										tsc = &cp
+									}
+									cases = append(cases, message.Attributes{IfVer: ifv, Username: tr[0], SSHClientVersion: tr[1], Hostname: tr[2], HardKey: hk, Touch2SSH: t2,
+										TouchlessSudo: tsc, CAPubKeyAlgo: x509.PublicKeyAlgorithm(ca), SignatureAlgo: x509.SignatureAlgorithm(sa), Exts: ex})
+								}
+							}
+						}
+					}
+				}
+			}
+		}
+	}
+	c.ParMap(len(cases), func(i int) {
+		c15Attrs(c, cases[i])
+		if i%50021 == 7 {
+			c.Sample(c15Case{Kind: "attrs", Attrs: &cases[i]})
+		}
+	})
+	n = len(cases)
+	c.Set("attribute_sets", n)
+
+	// legacy token sequences
+	toks := []string{"IFVer=6", "IFVer=x", "SSHClientVersion=8.1", "SSHClientVersion=", "req=u@h", "req=u@h2", "req=u", "req=a@b@c", "req=@", "req", "HardKey=true", "HardKey=maybe",
+		"Touch2SSH=1", "TouchlessSudoTime=9x", "a=b=c", "=v", "", "\tIsFirefighter=true\t"}
+	L := 3
+	if c.Thorough() {
+		L = 4
+	}
+	texts := []string{}
+	var rec func(prefix []string, depth int)
+	rec = func(prefix []string, depth int) {
+		texts = append(texts, strings.Join(prefix, " "))
+		if depth == L {
+			return
+		}
+		for _, t := range toks {
+			rec(append(append([]string{}, prefix...), t), depth+1)
+		}
+	}
+	rec(nil, 0)
+	c.Set("legacy_token_sequences", len(texts))
+	c.ParMap(len(texts), func(i int) {
+		c15Text(c, texts[i], "legacy tokens")
+		if i%3001 == 5 {
+			c.Sample(c15Case{Kind: "text", Text: texts[i]})
+		}
+	})
+	// JSON catalogue: objects that also look like legacy text, missing fields, wrong types, non-objects
+	full := `"username":"u","hostname":"h","sshClientVersion":"8.1"`
+	cat := []string{"null", "[]", "[1]", "7", `"s"`, `"req=u@h"`, "true", "{}", "{" + full + "}", `{"username":"u","hostname":"h"}`, `{"username":"u","sshClientVersion":"8.1"}`,
+		`{"hostname":"h","sshClientVersion":"8.1"}`, `{"username":"","hostname":"h","sshClientVersion":"8.1"}`,
+		`{"x":"IFVer=6 SSHClientVersion=8.1 req=u@h y"}`, `{"x": "a", "req=u@h":1, "k":" req=u@h "}`, `{ "username":"u" , "x":" req=u@h " }`,
+		"{" + full + `,"ifVer":7}`, "{" + full + `,"ifVer":"7"}`, "{" + full + `,"hardKey":"true"}`, "{" + full + `,"exts":[]}`, "{" + full + `,"exts":{"a":{"b":[1,2]}}}`,
+		"{" + full + `,"touchlessSudo":null}`, "{" + full + `,"touchlessSudo":{"time":1.5}}`, "{" + full + `,"USERNAME":"other"}`, "{" + full + `,"username":"second"}`,
+		"{" + full + "} req=u@h", "req=u@h {" + full + "}", "{" + full + "}{}", " {" + full + "} ", "{" + full, `{"username":"u@h","hostname":"h req=x@y","sshClientVersion":"8.1 "}`,
+		"\xff\xfe", "", " ", "req=\xff@h"}
+	for _, t := range cat {
+		c15Text(c, t, "catalogue")
+	}
+	c.Sample(c15Case{Kind: "text", Text: cat[13]})
+}
